@@ -224,7 +224,7 @@ let () =
           let a = try List.assoc i pend.answers with Not_found -> [] in
           Hashtbl.replace descs i d;
           do_event (EInit (z_of_int i, d, c, a))
-        | ["N"; i; mode; msop; difop; vlan; repeat] ->
+        | "N" :: i :: mode :: msop :: difop :: vlan :: repeat :: _ ->
           let i = int_of_string i in
           let (_, c) = List.assoc i pend.cfgs in
           let ic = { i_msop_port = z_of_int (int_of_string msop); i_difop_port = z_of_int (int_of_string difop); i_vlan = bool_of vlan;
@@ -281,7 +281,7 @@ let () =
             (match c with
              | "LI" -> (match lcall i LInit with (_, OBool b) -> pr "linit %d %d\n" i (if b then 1 else 0) | _ -> ())
              | "LS" -> (match lcall i LStart with (_, OBool b) -> pr "lstart %d %d\n" i (if b then 1 else 0) | _ -> ())
-             | "LX" -> ignore (lcall i LStop); pr "lstop %d\n" i
+             | "LX" -> ignore (lcall i LStop); pr "lstop %d\n" i; pr "lopen %d 0\n" i
              | "LP" -> ignore (lcall i LFeed)
              | "LW" -> (match lcall i LDrain with (_, OCount n) -> pr "lproc %d %d\n" i (int_of_nat n) | _ -> ())
              | "LE" -> let s0 = Hashtbl.find life i in ignore (lcall i LEof); pr "leof %d %d\n" i (if s0.l_start && s0.l_kind = KPcap then 1 else 0)
